@@ -28,9 +28,44 @@ def axioms():
     return _AXIOMS
 
 
+def subterm_ids(terms, seen):
+    stack = list(terms)
+    while stack:
+        e = stack.pop()
+        i = e.get_id()
+        if i in seen:
+            continue
+        seen.add(i)
+        if z3.is_quantifier(e):
+            stack.append(e.body())
+        else:
+            stack.extend(e.children())
+    return seen
+
+
+def relevant_defs(obl, defs):
+    """definitions whose anchor term occurs in the obligation (closed transitively)."""
+    anchors = getattr(defs, "anchors", None)
+    if anchors is None:
+        return list(defs)
+    seen = subterm_ids(list(obl.hyps) + [obl.goal], set())
+    chosen = [False] * len(defs)
+    changed = True
+    while changed:
+        changed = False
+        for i, (d, a) in enumerate(zip(defs, anchors)):
+            if chosen[i]:
+                continue
+            if a is None or any(x.get_id() in seen for x in a):
+                chosen[i] = True
+                changed = True
+                subterm_ids([d], seen)
+    return [d for d, c in zip(defs, chosen) if c]
+
+
 def to_smt2(obl, defs, values_of=()):
     s = z3.Solver()
-    body = list(obl.hyps) + list(defs)
+    body = list(obl.hyps) + relevant_defs(obl, defs)
     neg = z3.Not(obl.goal)
     txt_probe = " ".join(x.sexpr() for x in body[:0])
     s.add(*body)
